@@ -144,6 +144,11 @@ def call_func(ex, name, args, kwargs, e):
             ex.assume(n >= 0)      # |set|: uninterpreted, non-negative (A3)
             ex.assume((n == 0) == Not(EX([sort_of(v.kind)], lambda y: v.mem[y])))
             return VZ(n, "int")
+        if isinstance(v, VDict):
+            m = ex.st.heap["%s.%s" % (v.cls, v.field)][v.obj]
+            n = Function("dictcard", ArraySort(Str, INT), INT)(m)
+            ex.assume(n >= 0)          # number of keys: uninterpreted, non-negative (A3)
+            return VZ(n, "int")
         if isinstance(v, VListeners):
             from .symex import card
             return VZ(card(ex.st.heap["Mailbox._listeners"][v.obj]), "int")
